@@ -20,7 +20,24 @@ QUICK = [
     ("sphere-division", "sphere.vtk", "7.5e-7", 40, 3, {}, {"avg_division_volume": "1e-18", "std_division_volume": "0"}),
     ("lumen-bpa", "lumen_initial_mesh.vtk", "2e-6", 2, 4, {}, {}),
     ("2cubes-removal", "2_cubes.vtk", "1e-6", 12, 2, {"min_vol": "1"}, {}),
+    # generated: two unit cubes whose padded extent is a whole number of voxels in every direction (upper grid boundary hit exactly)
+    ("dyadic-cubes", "gen:dyadic-cubes", "0.5", 3, 2, {"perform_initial_triangulation": "0", "contact_cutoff_adhesion": "0.25",
+                                                     "contact_cutoff_repulsion": "0.25"}, {}),
 ]
+
+
+def generated_mesh(spec, wd):
+    """meshes that do not ship with /repo (boundary geometries), written into the scenario's work directory"""
+    if spec == "gen:dyadic-cubes":
+        def cube(o):
+            P = [(o[0] + x, o[1] + y, o[2] + z) for x in (0.0, 1.0) for y in (0.0, 1.0) for z in (0.0, 1.0)]
+            # outward triangles of the unit cube with corner index 4x+2y+z
+            T = [(0, 1, 3), (0, 3, 2), (4, 6, 7), (4, 7, 5), (0, 4, 5), (0, 5, 1), (2, 3, 7), (2, 7, 6), (0, 2, 6), (0, 6, 4), (1, 5, 7), (1, 7, 3)]
+            return P, T, 0
+        path = os.path.join(wd, "dyadic_cubes.vtk")
+        SC.write_vtk(path, [cube((0.0, 0.0, 10.0)), cube((0.0, 0.0, 12.25))])
+        return path
+    raise ValueError(spec)
 THOROUGH_EXTRA = [
     ("triplet", "cell_triplet.vtk", "7.5e-7", 30, 8, {}, {}),
     ("big-sphere", "big_sphere.vtk", "7.5e-7", 10, 16, {}, {}),
@@ -36,7 +53,7 @@ def run_scenarios(exe, scen, repeat=1, valgrind=False):
     for (name, mesh, lmin, iters, threads, ov, aov) in scen:
         for rep in range(repeat):
             with SC.Workdir() as wd:
-                params = SC.make_params(wd, mesh, lmin, ov, aov)
+                params = SC.make_params(wd, generated_mesh(mesh, wd) if mesh.startswith("gen:") else mesh, lmin, ov, aov)
                 if valgrind:
                     args = ["valgrind", "-q", "--error-exitcode=99", "--track-origins=no", exe, params, str(iters), str(threads), str(max(1, iters)), "full"]
                     t = time.time()
